@@ -145,6 +145,7 @@ def run_direct(repo, R):
             raise AnalysisError("FORMULA", f"signature of {f.name} changed", f.where())
         env = {p[0]: x, p[1]: g, p[2]: sp.Symbol("MASK"), p[3]: n, p[4]: a}
         E = DirectElem(f, env, rule="FORMULA")
+        E.repo = repo
         E.run()
         if len(E.returns) != 1:
             raise AnalysisError("FORMULA", f"{f.name}: expected one return", f.where())
